@@ -882,7 +882,8 @@ impl SortedWritesTable {
                             }
                             use hashbrown::hash_table::Entry;
                             checker.check_local(row);
-                            changed = true;
+                            // `changed` is set below, only when the row is new or the merge
+                            // function reports a different value (as in `serial_insert`).
                             let key = &row[0..n_keys];
                             let (_actual_shard, hc) = hash_code(shard_data, row, n_keys);
                             #[cfg(any(debug_assertions, test))]
